@@ -453,6 +453,9 @@ func (loc *Location) WorkWalk(ctx *Context, w *FindRules, steps int) *Condition 
 }
 
 func (loc *Location) ProcessEvent(ctx *Context, event Map) (*FindRules, *Condition) {
+	// Like every other Location method: conditions and actions take
+	// their location (timeouts, Env.AddFact, ...) from the context.
+	ctx.SetLoc(loc)
 	start, err := loc.PrepareWork(ctx, event)
 	if err != nil {
 		return start, &Condition{err.Error(), "unknown"}
